@@ -10,6 +10,17 @@ COMMON_NOTE = ('Trusted base: z3 4.x/5.1 (python3-vt), the symx forking engine, 
                'reals), sizes beyond the stated bounds, GPU, complex dtypes. ')
 
 CHECKS = {
+ 'C18': dict(
+    text='The history of library queries applied to one set of objects is a vector of solver variables (q, r[, s], q): every query is observed before and after every other query and repeated. A deep snapshot of every argument -- rules, nodes, edges, externals, '
+         'label tables, domains and factor bindings by object identity; per weight tensor size, stride, offset, dtype, requires_grad, axis expressions, default and every cell of the underlying storage (also of the plain tensor the user handed in, including cells outside the view) -- '
+         'is taken before the history and after each query. Storage cells are z3 terms, so "bit-for-bit unchanged" is decided for all weight values at once: a cell that is no longer the identical term becomes a solver query, and a value-dependent write (e.g. an in-place nan_to_num_ that only '
+         'matters for infinite weights) is a satisfiable one. The repeated query must return the first result (structure verbatim, cells by solver query). For every in-place operation of PatternedTensor and a list of MultiTensor steps, the storage and the denotation of the tensor that was '
+         'NOT operated on (source vs clone, source vs copy_ destination) are compared cell by cell. Right level: purity is a frame property over call histories and aliasing; symbolic cells make every write visible whatever the values are.',
+    note='Bounds: histories of length 3 (quick) / 4 (thorough) over 7-10 queries per grammar {sum_product x 3 methods, sum_products, viterbi, viterbi+derive, sum_product+backward, factorize_fgg x 2, fgg_to_json, hrg_to_json} resp. {factorize_hrg x 3, factorize_rule with/without labels, conjoin_hrgs, hrg_to_json} '
+         'on weight-free grammars with large rules; grammars: feature set, two-level sample, 9 recursive shapes, large-rule family, <=16 weights; weight presentations: contiguous / permuted / offset-slice tensors and PatternedTensors of the typed pattern family incl. stride-0 storage; '
+         'clone part: every in-place entry of the C06 operation table x patterns of rank<=2 (quick) / 3 x 4 modes; MultiTensor: 13 steps x 4 modes x present/absent blocks over 2 keys. '
+         'fgg_to_json calls float() per cell (C boundary): histories containing it, and real-semiring recursion with more than 2 weights, run on concrete weights (enumeration, labelled). viterbi only on non-recursive grammars (F14). .grad accumulation on leaves is not part of the snapshot. Set-valued label tables compared as sets.',
+    technique='symbolic query histories (sequence as solver variables) + SMT identity of storage cells before/after (z3)', design='5/C18'),
  'C12': dict(
     text='The presentation of a grammar (rule, edge and node insertion order, explicit vs implicit ids, consistent renaming of labels, a transposition of domain values applied to every matching factor axis) is a vector of solver variables, i.e. a symbolic schedule: '
          'it fixes dict/set iteration order inside the solvers. Every presentation inside the bound is explored; both presentations are evaluated by sum_product over the same symbolic weights and the solver decides cell-wise equality of the start tensors modulo the value '
@@ -168,7 +179,7 @@ for p in props:
         'level_note': COMMON_NOTE + c['note'],
         'technique': c['technique'],
     })
-na = [{'property_id': p['id'], 'reason': 'check not built yet (build in progress, see DESIGN.md section 8)'}
+na = [{'property_id': p['id'], 'reason': 'check not built yet (see DESIGN.md)'}
       for p in props if p['id'] not in CHECKS]
 m = {
  'version': 1,
